@@ -30,12 +30,35 @@ def tasks(tier):
     return t
 
 
+def window_tasks(run):
+    """Start from non-initial states too: every distinct package reachable in <=D row-level steps (state-merged BFS)
+    becomes an initial state from which every window of 2 adjacent steps is checked lazily vs stepwise."""
+    depth, cap = (2, 40) if run.tier == 'quick' else (8, 2500)
+    with core.quiet():
+        seen, transitions, capped = e1.reachable_states(['P0', 'P1'], e1.SIGMA_ROW, depth, cap)
+    run.extra['window_exploration'] = {'bfs_depth': depth, 'distinct_states': len(seen), 'bfs_transitions': transitions,
+                                       'state_cap_hit': capped,
+                                       'states_per_depth': {str(d): sum(1 for _, dd in seen.values() if dd == d) for d in range(depth + 1)}}
+    if capped:
+        run.caps.append('window exploration: state cap %d hit at BFS depth <= %d' % (cap, depth))
+    run.transitions += transitions
+    ts = []
+    for key, (st, d) in seen.items():
+        if d == 0:
+            continue
+        for s1 in e1.SIGMA_ROW:
+            ts.append({'input': 'S:' + key, 'input_state': st.to_json(), 'prefix': [s1], 'alphabet': e1.SIGMA_ROW, 'depth': 2})
+    return ts, set(seen)
+
+
 def run(run):
     ts = tasks(run.tier)
+    wts, wstates = window_tasks(run)
+    ts = ts + wts
     # seed only rotates the order in which shards are handed out
     k = run.seed % max(1, len(ts))
     ts = ts[k:] + ts[:k]
-    states = set()
+    states = set(wstates)
     for res in run.map(e1.explore_c01, ts, chunksize=1, limit=1800):
         if res is None or res.get('timeout'):
             continue
